@@ -74,7 +74,7 @@ func TestVerifC01Faults(t *testing.T) {
 	clients := []quicworld.ClientSel{{Client: "plain"}, {Client: "plain", V2: true}, {Client: "unil"}, {Client: "Chrome_115_IPv4"}, {Client: "Firefox_116A"}}
 	var cases []*quicworld.ConnCase
 	if l.Quick() {
-		cases = quicworld.FaultSuite(l, clients, []string{"S1"}, 8, 400, 100, 200)
+		cases = quicworld.FaultSuite(l, clients, []string{"S1", "S3"}, 8, 2500, 1000, 800)
 	} else {
 		clients = append(clients, quicworld.ClientSel{Client: "unil", V2: true}, quicworld.ClientSel{Client: "Chrome_146_IPv4"}, quicworld.ClientSel{Client: "Firefox_116C"})
 		cases = quicworld.FaultSuite(l, clients, []string{"S1", "S2", "S3", "S5", "S6"}, 12, 60000, 40000, 12000)
@@ -89,6 +89,6 @@ func TestVerifC01FaultsRace(t *testing.T) {
 	l := evlog.Open("C01")
 	defer l.Close()
 	clients := []quicworld.ClientSel{{Client: "plain"}, {Client: "plain", V2: true}, {Client: "Chrome_115_IPv4"}, {Client: "Firefox_116A"}}
-	cases := quicworld.FaultSuite(l, clients, nil, 0, l.Pick(60, 1500), l.Pick(40, 1000), l.Pick(40, 1000))
+	cases := quicworld.FaultSuite(l, clients, nil, 0, l.Pick(150, 1500), l.Pick(100, 1000), l.Pick(100, 1000))
 	quicworld.RunSuite(t, l, cases, c01Report(l))
 }
